@@ -70,6 +70,8 @@ pub struct Stage {
     pub ambient: Ambient,
     /// the stream ends exactly at this absolute offset (systematic truncation sweep)
     pub eof_at: Option<usize>,
+    /// fd 0 and fd 1 are real pipes (pre-filled and closed / drained after exit) instead of memfds
+    pub pipes: bool,
 }
 
 #[derive(Clone, Debug)]
@@ -103,6 +105,7 @@ impl Stage {
             "w1": acts_text(&self.w1), "w2": acts_text(&self.w2),
             "ambient": self.ambient.to_json(),
             "eof_at": self.eof_at,
+            "pipes": self.pipes,
         })
     }
     fn from_json(v: &Value) -> Option<Stage> {
@@ -121,6 +124,7 @@ impl Stage {
             w2: acts_parse(v.get("w2")?.as_str()?),
             ambient: v.get("ambient").and_then(Ambient::from_json).unwrap_or_default(),
             eof_at: v.get("eof_at").and_then(|e| e.as_u64()).map(|e| e as usize),
+            pipes: v.get("pipes").and_then(|e| e.as_bool()).unwrap_or(false),
         })
     }
 }
@@ -280,7 +284,9 @@ fn gen_stage(rng: &mut Rng, corpus: &Corpus, second: bool) -> Stage {
     }
     let w2 = if rng.chance(1, 6) { transparent_script(rng, 6) } else { Vec::new() };
     let ambient = Ambient::draw(rng);
-    Stage { rule_text, data_text, form, sep, read, flips, w1, w2, ambient, eof_at: None }
+    // what `a | jsonlogic r | jsonlogic r2` really hands the process: pipes, not regular files
+    let pipes = data_text.len() < 100_000 && rng.chance(1, 3);
+    Stage { rule_text, data_text, form, sep, read, flips, w1, w2, ambient, eof_at: None, pipes }
 }
 
 pub fn gen_case(seed: u64, profile: &str, corpus: &Corpus) -> Case {
@@ -352,8 +358,26 @@ pub fn budget_for(stage: &Stage, expected_out: usize) -> u64 {
 pub fn run_stage(env: &Env, profile: &str, stage: &Stage, budget: u64) -> StageResult {
     let bin = if profile == "release" { &env.cli_release } else { &env.cli_debug };
     let stdin_content: &[u8] = if stage.form == Form::Arg { b"" } else { &stage.data_text };
-    let fin = memfile("e2-stdin", stdin_content);
-    let fout = memfile("e2-stdout", b"");
+    let use_pipes = stage.pipes && stdin_content.len() < 400_000;
+    let mut out_read_end: Option<File> = None;
+    let (fin, fout) = if use_pipes {
+        // stdin: a pipe filled with the whole content whose write end is already closed (the producer
+        // has finished); stdout: a pipe large enough never to block, drained after the process exits
+        let mk = |cap: usize| -> (File, File) {
+            let mut fds = [0i32; 2];
+            assert!(unsafe { libc::pipe2(fds.as_mut_ptr(), libc::O_CLOEXEC) } == 0);
+            unsafe { libc::fcntl(fds[1], libc::F_SETPIPE_SZ, cap as libc::c_int) };
+            unsafe { (File::from_raw_fd(fds[0]), File::from_raw_fd(fds[1])) }
+        };
+        let (in_r, mut in_w) = mk(stdin_content.len() + 8192);
+        in_w.write_all(stdin_content).expect("fill stdin pipe");
+        drop(in_w);
+        let (out_r, out_w) = mk(1 << 20);
+        out_read_end = Some(out_r);
+        (in_r, out_w)
+    } else {
+        (memfile("e2-stdin", stdin_content), memfile("e2-stdout", b""))
+    };
     let ferr = memfile("e2-stderr", b"");
     let ftrace = memfile("e2-trace", b"");
     // the trace fd must be inherited: clear CLOEXEC (memfd_create without MFD_CLOEXEC already is)
@@ -429,7 +453,19 @@ pub fn run_stage(env: &Env, profile: &str, stage: &Stage, budget: u64) -> StageR
         unsafe { libc::close(pidfd) };
     }
     let status = child.wait().expect("wait");
-    let stdout = oracle::read_fd_all(fout.as_raw_fd());
+    let stdout = match out_read_end {
+        Some(mut r) => {
+            use std::io::Read;
+            drop(cmd); // the Command holds duplicates of the write end
+            let wfd = fout.as_raw_fd();
+            let _ = wfd;
+            drop(fout);
+            let mut buf = Vec::new();
+            let _ = r.read_to_end(&mut buf);
+            buf
+        }
+        None => oracle::read_fd_all(fout.as_raw_fd()),
+    };
     let stderr = oracle::read_fd_all(ferr.as_raw_fd());
     let trace_raw = String::from_utf8_lossy(&oracle::read_fd_all(trace_fd)).into_owned();
     StageResult { stdout, stderr, code: status.code(), signal: status.signal(), timed_out, trace: parse_trace(&trace_raw), trace_raw }
@@ -730,6 +766,9 @@ fn tally(stage: &Stage, res: &StageResult, expect: &Expect, st: &mut CaseStats) 
     if !stage.ambient.is_default() {
         bump(&mut st.fired, "ambient-perturbed", 1);
     }
+    if stage.pipes {
+        bump(&mut st.probes, "stdin-and-stdout-are-real-pipes", 1);
+    }
     let k = match expect {
         Expect::Success { .. } => "expected-success",
         Expect::Failure { .. } => "expected-failure",
@@ -849,6 +888,7 @@ pub fn sweep_case(env: &Env, case: &Case, oracle: &mut Oracle) -> (Vec<(Case, Vi
     base.w2.clear();
     base.ambient = Ambient::default();
     base.eof_at = None;
+    base.pipes = false;
     let len = base.data_text.len();
     let mut variants: Vec<Stage> = Vec::new();
     // the producer dies after exactly p bytes, for every p
